@@ -70,6 +70,10 @@ def _child(argv, cwd, env, out_path, err_path, stdin_path, opts):
     main_ident = threading.get_ident()
     for s in (signal.SIGINT, signal.SIGTERM, signal.SIGCHLD):
         signal.signal(s, signal.default_int_handler if s == signal.SIGINT else signal.SIG_DFL)
+    if (opts.get("proc") or {}).get("ignore_sigchld"):
+        # started by a daemon that ignores SIGCHLD (so that it never has zombies): the disposition survives exec;
+        # the kernel then reaps children by itself and wait() cannot learn their exit status
+        signal.signal(signal.SIGCHLD, signal.SIG_IGN)
     if opts.get("inherit_ignored"):
         # started like `cond run ... &` from a non-interactive shell / under `trap '' INT TERM`
         signal.signal(signal.SIGINT, signal.SIG_IGN)
